@@ -3,7 +3,8 @@ verus! {
 
 // what WalkDir::new(dir).into_iter().filter_map(|e| e.ok()) yields, in order (walkdir's traversal is trusted:
 // every depth, symlinks not followed, so `file_type().is_file()` is false for links and directories)
-pub struct DirEntryG { pub path: Seq<char>, pub is_file: bool, pub ext: Option<Seq<char>>, pub utf8: bool }
+pub struct DirEntryG { pub path: Seq<char>, pub is_file: bool, pub ext: Option<Seq<char>>, pub utf8: bool,
+                       pub follows_to_file: bool }   // Path::is_file(): FOLLOWS symlinks (true for a link to a regular file)
 pub uninterp spec fn walk_entries(dir: Seq<char>) -> Seq<DirEntryG>;
 pub open spec fn walk_wf(es: Seq<DirEntryG>, w: World) -> bool {
     &&& forall|i: int, j: int| 0 <= i < j < es.len() ==> es[i].path != es[j].path
@@ -50,6 +51,9 @@ impl EntryPath {
     { unimplemented!() }
     #[verifier::external_body]
     pub fn to_str(&self) -> (r: Option<&str>) ensures r.is_some() == self.g().utf8, r.is_some() ==> r.unwrap()@ == self.g().path { unimplemented!() }
+    // std::path::Path::is_file follows symbolic links, unlike DirEntry::file_type()
+    #[verifier::external_body]
+    pub fn is_file(&self) -> (r: bool) ensures r == self.g().follows_to_file { unimplemented!() }
 }
 #[verifier::external_body]
 pub struct DirEntry { _p: () }
